@@ -37,6 +37,8 @@ pub enum Ty {
 	Vec3,
 	SpeedSame,
 	SpeedCross,
+	/// clock speed given and tweened as a tick length (seconds per tick)
+	SpeedSpt,
 	/// the tweener modulator (the same logic, duplicated in modulator/tweener.rs), driven through
 	/// its handle and the public Modulator trait
 	Tweener,
@@ -99,7 +101,7 @@ fn gen_case(seed: u64, tier: Tier) -> Case {
 	let ty = if envelope {
 		Ty::Db
 	} else {
-		*rng.pick(&[Ty::F64, Ty::F64, Ty::F64, Ty::F32, Ty::Db, Ty::Pan, Ty::Rate, Ty::Mix, Ty::Dur, Ty::Vec3, Ty::SpeedSame, Ty::SpeedCross, Ty::Tweener, Ty::Tweener])
+		*rng.pick(&[Ty::F64, Ty::F64, Ty::F64, Ty::F32, Ty::Db, Ty::Pan, Ty::Rate, Ty::Mix, Ty::Dur, Ty::Vec3, Ty::SpeedSame, Ty::SpeedCross, Ty::SpeedSpt, Ty::Tweener, Ty::Tweener])
 	};
 	let n = rng.urange(6, if tier == Tier::Quick { 60 } else { 200 });
 	let dyadic = rng.chance(0.4);
@@ -128,6 +130,7 @@ fn gen_case(seed: u64, tier: Tier) -> Case {
 			Ty::Mix => rng.f64(),
 			Ty::Dur => rng.frange(0.0, 5.0),
 			Ty::SpeedSame | Ty::SpeedCross => rng.frange(0.5, 400.0),
+			Ty::SpeedSpt => rng.frange(0.0025, 2.0),
 			_ => *rng.pick(&[0.0, 1.0, -1.0, any]),
 		}
 	};
@@ -284,11 +287,11 @@ fn make_driver<T: Projected + 'static>(initial: f64) -> Driver {
 	}
 }
 
-fn make_speed_driver(initial: f64, cross: bool) -> Driver {
+fn make_speed_driver(initial: f64, cross: bool, spt: bool) -> Driver {
 	use std::{cell::RefCell, rc::Rc};
 	let p = Rc::new(RefCell::new(Parameter::<ClockSpeed>::new(
-		Value::Fixed(ClockSpeed::TicksPerSecond(initial)),
-		ClockSpeed::TicksPerSecond(initial),
+		Value::Fixed(if spt { ClockSpeed::SecondsPerTick(initial) } else { ClockSpeed::TicksPerSecond(initial) }),
+		if spt { ClockSpeed::SecondsPerTick(initial) } else { ClockSpeed::TicksPerSecond(initial) },
 	)));
 	let p2 = p.clone();
 	Driver {
@@ -296,11 +299,25 @@ fn make_speed_driver(initial: f64, cross: bool) -> Driver {
 			let mut p = p.borrow_mut();
 			let finished = p.update(dt, info);
 			// always observed in ticks per minute, the unit of the targets in the cross case
-			let obs = |s: ClockSpeed| if cross { s.as_ticks_per_minute() } else { s.as_ticks_per_second() };
+			let obs = |s: ClockSpeed| {
+				if spt {
+					s.as_seconds_per_tick()
+				} else if cross {
+					s.as_ticks_per_minute()
+				} else {
+					s.as_ticks_per_second()
+				}
+			};
 			(obs(p.value()), obs(p.previous_value()), finished)
 		}),
 		set: Box::new(move |v, tween| {
-			let target = if cross { ClockSpeed::TicksPerMinute(v) } else { ClockSpeed::TicksPerSecond(v) };
+			let target = if spt {
+				ClockSpeed::SecondsPerTick(v)
+			} else if cross {
+				ClockSpeed::TicksPerMinute(v)
+			} else {
+				ClockSpeed::TicksPerSecond(v)
+			};
 			p2.borrow_mut().set(Value::Fixed(target), tween)
 		}),
 	}
@@ -362,8 +379,9 @@ pub fn run_case(case: &Case) -> CaseResult {
 		Ty::Mix => make_driver::<Mix>(case.initial),
 		Ty::Dur => make_driver::<Duration>(case.initial),
 		Ty::Vec3 => make_driver::<glam::Vec3>(case.initial),
-		Ty::SpeedSame => make_speed_driver(case.initial, false),
-		Ty::SpeedCross => make_speed_driver(case.initial, true),
+		Ty::SpeedSame => make_speed_driver(case.initial, false, false),
+		Ty::SpeedCross => make_speed_driver(case.initial, true, false),
+		Ty::SpeedSpt => make_speed_driver(case.initial, false, true),
 		Ty::Tweener => make_tweener_driver(case.initial),
 	};
 	let eps = if single_precision(case.ty) {
@@ -713,7 +731,7 @@ impl Check for C06 {
 		CheckInfo {
 			id: "C06",
 			level: "exploration",
-			rule: "each case = tweenable type (f64, f32, decibels, panning, rate, mix, duration, vector, clock speed same-unit and cross-unit), start value, a sequence of overlapping set() calls (target, duration incl. 0 and shorter than one update, every built-in easing with positive powers, start immediate / delayed / on a simulated clock that may pause or vanish before the start time - the tween is then dropped and the value stays) and an update-step partition (uniform, multiples, random, dyadic); a quarter of the cases read the per-frame gain envelope of a DC sound instead; 15% render a DC sound through the real manager (sound -> volume-control effect -> sub-track -> send route -> send track / main track) with overlapping set_volume / set_send tweens on any of the five gain stages and on the route volume, optionally pausing and resuming the sub-track in between (its sounds and effects stand still, its own volume and route go on), seeded internal buffer size and callback sizes that are not multiples of it, every output frame compared with the closed form interpolated at (i + 1) / n from the previous chunk's final value; non-trivial = at least one tween started or ended; distinct = hash of the per-update (idle / waiting / running) sequence, type and number of transitions",
+			rule: "each case = tweenable type (f64, f32, decibels, panning, rate, mix, duration, vector, clock speed in ticks per second, ticks per second -> ticks per minute, and as a tick length in seconds per tick), start value, a sequence of overlapping set() calls (target, duration incl. 0 and shorter than one update, every built-in easing with positive powers, start immediate / delayed / on a simulated clock that may pause or vanish before the start time - the tween is then dropped and the value stays) and an update-step partition (uniform, multiples, random, dyadic); a quarter of the cases read the per-frame gain envelope of a DC sound instead; 15% render a DC sound through the real manager (sound -> volume-control effect -> sub-track -> send route -> send track / main track) with overlapping set_volume / set_send tweens on any of the five gain stages and on the route volume, optionally pausing and resuming the sub-track in between (its sounds and effects stand still, its own volume and route go on), seeded internal buffer size and callback sizes that are not multiples of it, every output frame compared with the closed form interpolated at (i + 1) / n from the previous chunk's final value; non-trivial = at least one tween started or ended; distinct = hash of the per-update (idle / waiting / running) sequence, type and number of transitions",
 			assumptions: vec![
 				"timing is allowed one update of quantisation where a start time has to be reached (delayed, clock); immediate tweens are compared at their exact elapsed time".into(),
 				"tolerance 1e-9 relative for f64-based types, 1e-5 for f32-based ones; end points, holding and 'previous value == last value' are exact".into(),
